@@ -18,7 +18,7 @@ CHECKS = {
  "C13": dict(cat="exploration", ref="§C13, §1.1",
     tech="property-based testing (Hypothesis) with a hidden-model round trip: instance documents of a generated regular model (SchemaSpec with one declaration per element name; JSON object shapes) are the only input of the code generator; oracles = strict parse of every sample into the generated root class (unknown properties/attributes and converter warnings are errors) and equality of the re-serialized sample (canonical infoset from an independent libxml2 parse; JSON modulo key order and nulls)",
     text="Generated search over hidden models (nested groups with occurrence ranges, attributes, qualified/unqualified forms, mixed and simple content, recursion, every inferable builtin type; JSON objects with nested objects, arrays of scalars/objects, optional keys, nulls, empty arrays), 1-4 samples per model with canonical value spellings, and generator options. Searched, not proved.",
-    note="Stand-ins for click/jinja2/toposort, no ruff. Element order is compared only where the hidden model has no repeated element or group. Regions of the 9 recorded findings are excluded by construction (nil in some samples; elements that are empty in some samples and not in others; attributes missing from some samples of a childless element; array keys absent from a sample; keys that only hold null/[])."),
+    note="Stand-ins for click/jinja2/toposort, no ruff. Element order is compared only where the hidden model has no repeated element or group and, with several samples, leaves the greedy merge of field orders no choice. Regions of the 10 recorded findings are excluded by construction (nil in some samples; elements that are empty in some samples and not in others; attributes missing from some samples of a childless element; array keys absent from a sample; keys that only hold null/[])."),
  "C12": dict(cat="exploration", ref="§C12, §1.1",
     tech="property-based testing (Hypothesis) with a differential oracle across invocation routes: generated source sets (SchemaSpec schemas, XML sample sets, the repository's fixture source sets) x generated configurations are generated in fresh interpreters through the API under three PYTHONHASHSEED values, the API twice in one interpreter, the command line with flags, the command line with a project file, and the command line with --cache cold then warm; all file trees must be byte-identical",
     text="Generated search; per case seven generator runs in separate processes, compared path by path and byte by byte with the API run under PYTHONHASHSEED=0 (outcomes compared when generation is refused). Searched, not proved; the hash seeds are 2 of 8 fixed values per case.",
